@@ -26,9 +26,9 @@ ASSUMPTIONS = [
     "times given as an integer or as a full {min,max} pair; min-only / max-only spellings are not asserted (defaults are not part of the statement)",
     "operand-level times is judged by the metamorphic relation only",
 ]
-KINDS = ["item", "item-ops", "$and", "$or", "$not", "$and_any_order", "nested-times", "nested-times", "capture-ref"]
+KINDS = ["item", "item-ops", "$and", "$or", "$not", "$and_any_order", "nested-times", "nested-times", "capture-ref", "nested-times-gap", "nested-times-gap"]
 SHAPES = ["sandwich", "sandwich", "sandwich", "free", "meta", "meta"]
-FLOORS = {"shape=sandwich": 0.3, "shape=meta": 0.2, "edge=min": 0.05, "edge=max": 0.05, "edge=max+1": 0.04, "edge=min-1": 0.03, "rel=macro-plain-use": 0.015}
+FLOORS = {"shape=sandwich": 0.3, "shape=meta": 0.2, "edge=min": 0.035, "edge=max": 0.035, "edge=max+1": 0.028, "edge=min-1": 0.02, "rel=macro-plain-use": 0.009}
 for _k in KINDS:
     FLOORS[f"kind={_k}"] = 0.04
 
@@ -81,6 +81,8 @@ def build_x(draw, kind, full=(False, False)):
             s = describe_operand(draw, b[2][0], full[1])
             node = {node: [s if s is not None else "a"]}
         return node, [[b]]
+    if kind == "nested-times-gap":
+        return None, [[fresh(draw)]]
     if kind == "capture-ref":
         # the repeated item is a REFERENCE to an instruction capture defined just before it (no definition inside the repetition):
         # [A, &c, &c{t}, B] on A X X^r B
@@ -206,6 +208,29 @@ def cases(draw):
             L[k_b] = [L[k_b][0], Bx[0], Bx[1], Bx[2]]
             dB = Bx[0] if not Bx[2] or draw(st.booleans()) else describe_inst(draw, ("0", Bx[0], Bx[2]), (True, full[1]))
             ext = ext + "+overlapping-next" if ext != "none" else "overlapping-next"
+    if kind == "nested-times-gap":
+        # both levels ranged: inner {a, a+1}, outer {c, d}.  The totals that are sums of c..d whole inner runs leave gaps (inner {2,3},
+        # outer {0,1}: 0, 2, 3 - a single instruction is not a run); half of the listings sit in a gap
+        x_ = inst_alts[0][0]
+        a_ = draw(st.sampled_from([2, 3, 4]))
+        c_ = draw(st.sampled_from([0, 0, 0, 1]))
+        d_ = c_ + draw(st.sampled_from([1, 1, 2]))
+        ok_totals = {0} if c_ == 0 else set()
+        reach = {0}
+        for reps in range(1, d_ + 1):
+            reach = {t_ + k_ for t_ in reach for k_ in (a_, a_ + 1)}
+            if reps >= c_:
+                ok_totals |= reach
+        universe = list(range(0, d_ * (a_ + 1) + 2))
+        gaps = [t_ for t_ in universe if t_ not in ok_totals]
+        total = draw(st.sampled_from(gaps)) if gaps and draw(st.booleans()) else draw(st.sampled_from(sorted(ok_totals)))
+        inner = describe_inst(draw, ("0", x_[0], x_[2]), full)
+        child = attach(inner, {"min": a_, "max": a_ + 1}, "inside" if isinstance(inner, (str, int)) else "sibling")
+        group = {draw(st.sampled_from(["$and", "$and", "$and_any_order", "$or"])): [child]}
+        pattern = [dA, attach(group, {"min": c_, "max": d_}, "sibling-first" if spelling == "sibling-first" else "sibling"), dB]
+        L = _mk_listing(draw, pre + [A] + [x_] * total + [B] + post)
+        assume(_names_ok(pattern))
+        return {"shape": "sandwich", "kind": kind, "listing": L, "pattern": pattern, "edge": "gap" if total in gaps else "inside", "times": {"min": c_, "max": d_}, "r": total, "flags": list(full), "ext": "none"}
     if kind == "capture-ref":
         x_ = inst_alts[0][0]
         L = _mk_listing(draw, pre + [A, x_] + body + [B] + post)
